@@ -147,7 +147,13 @@ Record creq := {
   c_path : list Z;                      (* entry names below the root CID *)
   c_scope : scope;
   c_range : option (Z * option Z);      (* entity-bytes *)
-  c_dups : bool
+  c_dups : bool;
+  (* gateway configuration and the rest of the request *)
+  c_limit : Z;                          (* Config.MaxUnixFSDAGResponseSize, 0 = off *)
+  c_hsize : Z;                          (* size of the terminal entity as backend.Head reports it: file bytes, or the
+                                           cumulative DAG size of a directory (taken from the harness for directories) *)
+  c_badparam : bool                     (* a dag-scope / car-order / car-dups / car-version value or an entity-bytes
+                                           string the handler does not accept *)
 }.
 
 Definition entity_ids (t : node) (rng : option (Z * option Z)) : list Z :=
@@ -257,7 +263,33 @@ Definition model_ok (w : node) (rq : creq) (o : cobs) : bool :=
       subset l (o_blocks o) && subset (o_blocks o) l && Bool.eqb (o_err o) (stream_err w rq)
   end.
 
+(** NewDagByteRange rejects from > to when both have the same sign *)
+Definition range_bad (rng : option (Z * option Z)) : bool :=
+  match rng with
+  | Some (f, Some t) => ((0 <=? f) && (0 <=? t) && (t <? f)) || ((f <? 0) && (t <? 0) && (t <? f))
+  | _ => false
+  end.
+
+(** serveCAR before any block is sent: buildCarParams (400), then, when MaxUnixFSDAGResponseSize is set, the Head
+    pre-check (410 when the content is larger than the limit); a limit that is not exceeded changes nothing *)
+Definition expected_status (rq : creq) : Z :=
+  if c_badparam rq || range_bad (c_range rq) then 400
+  else if (0 <? c_limit rq) && (c_limit rq <? c_hsize rq) then 410
+  else 200.
+
+(** for file terminals the size Head reports is the file size of the tree *)
+Definition hsize_ok (w : node) (rq : creq) : bool :=
+  match resolve (c_path rq) w with
+  | Some (_, t) => match nkind t with KRaw | KLeaf | KFile => c_hsize rq =? size t | _ => true end
+  | None => false
+  end.
+
 Inductive case := Case (w : node) (rq : creq) (o : cobs).
 
 Definition check_case (c : case) : verdict :=
-  match c with Case w rq o => verdict_of (model_ok w rq o) (spec_ok w rq o) end.
+  match c with
+  | Case w rq o =>
+      let st := expected_status rq in
+      if st =? 200 then verdict_of (model_ok w rq o && hsize_ok w rq) (spec_ok w rq o)
+      else verdict_of (hsize_ok w rq) ((o_status o =? st) && match o_blocks o with [] => true | _ => false end)
+  end.
